@@ -7,7 +7,7 @@ ASSUME = ["oracle: line = number of \\n bytes before the offset, column = offset
 
 
 # the same differential check interpreted by Miri
-MIRI = {"quick": ["--maxlen", "3", "--random", "10", "--files", "2"],
+MIRI = {"quick": ["--maxlen", "2", "--random", "6", "--files", "1"],
         "thorough": ["--maxlen", "5", "--random", "400", "--files", "40"], "shards": 3, "shard_by_seed": True}
 
 
